@@ -57,6 +57,16 @@ def build_agent(sc, events, proto):
         ag = make_agent({conc(o): enc_int(t) for o, t in zip(sc["db"], sc["toks"])}, proto)
     else:
         ag = make_agent({conc(o): enc_int(token(o)) for o in sc["db"]}, proto)
+    if sc.get("volatile"):
+        # the agent's objects change while it answers (counters, sysUpTime): two bindings of one instance - in one response or in
+        # two - need not carry the same value (RFC 3416 asks for no snapshot)
+        serves = [0]
+        base = ag.val
+
+        def volatile_val(oid):
+            serves[0] += 1
+            return enc_int((serves[0] % 1000) * 1000000 + dec_int(base(oid)[2:]) % 1000000)
+        ag.val = volatile_val
     cut = sc.get("cut", "full")
     ag.cut = CUTS[cut] if cut in CUTS else seeded_cut(int(cut.split(":")[1]))
     ag.partial_first = cut.startswith("partial_first")
